@@ -26,7 +26,7 @@ GenVars   == {"f", "string"}               \* generator variable names: a fresh 
 PlainMeth == {"strip"}                     \* a method whose name is not a namespace callable
 ShadowMeth == {"upper"}                    \* a method whose name equals a whitelisted helper's name
 Dunder    == {"__class__", "__x"}           \* every name that STARTS with two underscores, whatever it ends with
-Attrs == PlainMeth \cup ShadowMeth \cup Dunder \cup {"s", "ipaddress", "fl"}     \* "fl": a mutable (list) value of the record
+Attrs == PlainMeth \cup ShadowMeth \cup Dunder \cup {"s", "ipaddress", "fl", "o"}     \* "fl": a mutable (list) value of the record; "o": a value that is not text
 \* ---- target shapes (node.func) ----
 \* base of an attribute chain: Name, call result, constant, parenthesised operator expression
 Bases == {[b |-> "name", n |-> n] : n \in {"r", "net"} \cup GenVars \cup Helpers \cup NotAllowedNames}
@@ -90,7 +90,8 @@ Safe == {"refused", "helper", "builtin4", "ctor", "read"}
 Contexts == {"bare", "arg", "operand", "listelt", "genelt", "geniter", "gencond", "kwarg", "not", "boolop",
              "add_list", "mult", "bitor",       \* the value is the LEFT operand of an operator (must never be modified in place)
              "helper_strings", "helper_fields", \* the value is handed to a whitelisted helper as its list of strings / of field names
-             "primed"}                          \* genuine whitelisted calls of the same names were made earlier in the same expression
+             "primed",                          \* genuine whitelisted calls of the same names were made earlier in the same expression
+             "fields_arg", "fields_kwarg"}      \* the value is handed to the selector helper fields() as the type to look up
 VARIABLES t, g, ctx
 Init == t \in Targets /\ g \in InGen /\ ctx \in Contexts
 Next == UNCHANGED <<t, g, ctx>>
